@@ -148,7 +148,57 @@ pub fn run(seed: u64, thorough: bool, out_dir: &std::path::Path, scratch: &std::
         };
         for _ in 0..nsteps {
             let tip = node.tip().number();
-            match rng.below(10) {
+            match rng.below(12) {
+                10 | 11 if !stash.is_empty() => {
+                    // switch back to a branch the node has left: its blocks were verified while they were on
+                    // the main chain, so the attached part of this reorganisation starts with verified blocks
+                    let snap = node.shared.snapshot();
+                    let cands: Vec<BlockView> = stash.iter().filter(|b| snap.get_block_number(&b.hash()).is_none() && snap.get_block_header(&b.hash()).is_some()).cloned().collect();
+                    if cands.is_empty() { continue; }
+                    let old = rng.pick(&cands).clone();
+                    // path genesis -> old, from the node's store
+                    let mut path: Vec<BlockView> = vec![old.clone()];
+                    while path.last().unwrap().number() > 1 {
+                        match snap.get_block(&path.last().unwrap().parent_hash()) { Some(p) => path.push(p), None => break }
+                    }
+                    if path.last().unwrap().number() != 1 { continue; }
+                    path.reverse();
+                    let fork_h = path.iter().filter(|b| snap.get_block_number(&b.hash()).is_some()).map(|b| b.number()).max().unwrap_or(0);
+                    let builder = Node::temp(&consensus);
+                    let mut ok = true;
+                    for b in &path { if builder.process(b).is_err() { ok = false; break; } }
+                    if !ok { builder.stop(); continue; }
+                    let old_main: Vec<BlockView> = ((fork_h + 1)..=tip).map(|n| snap.get_block(&snap.get_block_hash(n).unwrap()).unwrap()).collect();
+                    let mut branch: Vec<Vec<u64>> = path.iter().filter(|b| b.number() > fork_h).map(union_ids).collect();
+                    let mut switched = false;
+                    for i in 0..(tip.saturating_sub(old.number()) + 4) {
+                        let plan = BlockPlan { proposals: gen_props(&mut rng, &mut next_id, &mut recent_ids), ts_delta: rng.range(1, 2000), nonce: 991 + i as u128, ..Default::default() };
+                        let b = build_block(&builder, &plan);
+                        builder.process(&b).expect("builder accepts own block");
+                        let before = node.tip().hash();
+                        if let Err(e) = node.process(&b) {
+                            out.viol.push(json!({"what": format!("a valid block on a branch that was the main chain before was rejected: {e}"), "detail": {"history": jops}}));
+                            fail = true;
+                            break;
+                        }
+                        branch.push(union_ids(&b));
+                        crate::node::note_history(&jops); jops.push(json!({"switch_back_block": {"on_abandoned_height": old.number(), "fork_height": fork_h, "height": b.number(), "proposals": union_ids(&b)}}));
+                        if node.tip().hash() != before {
+                            if !switched {
+                                switched = true;
+                                ops.push(MOp::Reorg(fork_h, branch.clone()));
+                                *out.stats.entry("reorgs_back_to_verified_branch".into()).or_default() += 1;
+                            } else {
+                                ops.push(MOp::Reorg(b.number() - 1, vec![union_ids(&b)]));
+                            }
+                            obs.push(check(&node, "a reorganisation back to a branch that was verified before", &mut out, &jops, window));
+                            if rng.chance(1, 2) { break; }
+                        }
+                    }
+                    builder.stop();
+                    if switched { stash.extend(old_main); }
+                }
+                10 | 11 => {}
                 0..=4 => {
                     // extend by 1..5 blocks
                     let k = rng.range(1, 5);
@@ -160,6 +210,7 @@ pub fn run(seed: u64, thorough: bool, out_dir: &std::path::Path, scratch: &std::
                             for u in stash.iter() {
                                 if uncles.len() < 2
                                     && !used_uncles.contains(&u.hash())
+                                    && !uncles.iter().any(|x| x.hash() == u.hash())
                                     && u.number() < parent_no + 1
                                     && snap.get_block_number(&u.hash()).is_none()
                                     && snap.get_block_number(&u.parent_hash()).is_some()
